@@ -69,8 +69,10 @@ func Check(p *plan.Plan, r *runner.Result) []Violation {
 		c.ref()
 	case p.Scen.Server == "none":
 		c.realClientVsModel()
+	case p.Scen.Server == "lookup":
+		c.atomicReload()
 	}
-	if p.Scen.Server != "none" && p.Scen.Loader == nil {
+	if p.Scen.Server != "none" && p.Scen.Server != "lookup" && p.Scen.Loader == nil {
 		c.shutdown()
 		c.gauges()
 	}
